@@ -193,6 +193,77 @@ def run(ctx):
                 chk.violation("R12.2", "deep-text-writer:%s" % p, "%s writes the deep expression's text from %s" % (p, term[:100]), loc(st["span"]))
     chk.floor("R12.2", "deep text writers", dw, 3)
 
+    # ---- R12.4 deep printer: what each node kind prints
+    chk.rule("R12.4", "deep printer: number = its Debug form; variable = `{name}`; nested expression = the printer applied to that expression's own nodes, operators and unary composition, in parentheses iff it has no unary operator")
+    from analysis.interp import Interp as _I, Policy as _Pol, Sym as _S, App as _A, Variant as _V, Tup as _T, Const as _C, show as _show
+    from analysis import rel as _rel
+    ur = fb.find_bodies(lambda b: b["kind"] == "Fn" and b["path"].endswith("deep::detail::unparse_raw"))
+    if len(ur) != 1:
+        chk.violation("R12.4", "anchor", "deep::detail::unparse_raw not found")
+    else:
+        NODE = "expression::deep::DeepNode"
+        # the per-node closure: takes &DeepNode, returns String
+        ncl = [fb.bodies[c] for c in fb.closures_of(ur[0]["path"]) if fb.bodies[c]["arg_count"] == 2 and "DeepNode<" in fb.bodies[c]["locals"][2]["ty"]
+               and fb.bodies[c]["locals"][0]["ty"] == "std::string::String"]
+        if len(ncl) != 1:
+            chk.unrecognised("R12.4", "node-printer", "per-node closure of the deep printer not found (%d candidates)" % len(ncl), loc(ur[0]["span"]))
+        else:
+            cb = ncl[0]
+
+            def lit(v):
+                """printable literal text of a format string and its arguments"""
+                v = _rel.canon(v)
+                if not (isinstance(v, _A) and v.fn == "std::fmt::format" and isinstance(v.args[0], _A) and v.args[0].fn.endswith("Arguments::<'a>::new")):
+                    return None
+                fa = v.args[0].args
+                s = _show(fa[0])
+                text = "".join(ch for ch in re.sub(r"\\x[0-9a-f]{2}", "", s[2:-1] if s.startswith("b") else s) if ch in "{}()")
+                args = fa[1].elems if isinstance(fa[1], _T) else [fa[1]]
+                return text, [_rel.cstr(a) for a in args]
+            probs = []
+            ps = [p for p in _I(fb, _Pol()).run(cb, [_S("env"), _V(NODE, "Num", {"0": _S("n")})]) if p.status == "return"]
+            r = lit(ps[0].result) if len(ps) == 1 else None
+            if r != ("", ["core::fmt::rt::Argument::<'_>::new_debug(n)"]):
+                probs.append("a number prints as %s, expected its Debug form alone" % (r,))
+            ps = [p for p in _I(fb, _Pol()).run(cb, [_S("env"), _V(NODE, "Var", {"0": _T([_S("i"), _S("name")])})]) if p.status == "return"]
+            r = lit(ps[0].result) if len(ps) == 1 else None
+            if r != ("{}", ["core::fmt::rt::Argument::<'_>::new_display(name)"]):
+                probs.append("a variable prints as %s, expected `{name}`" % (r,))
+            ps = [p for p in _I(fb, _Pol()).run(cb, [_S("env"), _V(NODE, "Expr", {"0": _S("e")})]) if p.status == "return"]
+            REC = r"%s\(expression::deep::DeepEx::<'a, T, OF, LM>::nodes\((?P<x>.*?)\), expression::deep::DeepEx::<'a, T, OF, LM>::bin_ops\((?P=x)\), expression::deep::DeepEx::<'a, T, OF, LM>::unary_op\((?P=x)\)\)" % re.escape(ur[0]["path"])
+            seen_e = set()
+            for p in ps:
+                F = _rel.Facts(p)
+                no_unary = None
+                for a_, op_, b_ in F.rel:
+                    if op_ in ("==", "!=") and {_rel.const_int(a_), _rel.const_int(b_)} & {0} and "UnaryOp::<T>::len(" in (_rel.cstr(a_) + _rel.cstr(b_)):
+                        no_unary = (op_ == "==")
+                for tt, lab in F.true:
+                    if "is_empty(" in _rel.cstr(tt):
+                        no_unary = lab
+                res = _rel.canon(p.result)
+                l_ = lit(res)
+                if l_ is not None:
+                    text, args = l_
+                    inner = re.match(r"^core::fmt::rt::Argument::<'_>::new_display\((.*)\)$", args[0]).group(1) if len(args) == 1 and args[0].startswith("core::fmt::rt::Argument::<'_>::new_display(") else "?"
+                else:
+                    text, inner = "", _rel.cstr(res)
+                m_ = re.match("^" + REC + "$", inner)
+                if not m_ or "e" not in m_.group("x"):
+                    probs.append("a nested expression prints %s, expected the printer applied to that expression's own nodes, operators and unary composition" % inner[:120])
+                    continue
+                if no_unary is None:
+                    probs.append("whether a nested expression is put in parentheses does not depend on its having a unary operator")
+                elif (text == "()") != no_unary:
+                    probs.append("a nested expression %s a unary operator is printed %s parentheses" % ("without" if no_unary else "with", "with" if text == "()" else "without"))
+                seen_e.add(no_unary)
+            if seen_e != {True, False} and not probs:
+                probs.append("nested expression cases seen: %s" % sorted(map(str, seen_e)))
+            if probs:
+                chk.violation("R12.4", "node-text", "deep printer: %s" % "; ".join(probs[:3]), loc(cb["span"]))
+            else:
+                chk.ok("R12.4", "deep printer: number Debug, `{name}`, nested expressions re-printed from their own parts", "", loc(cb["span"]))
+
     # ---- R12.3 serde
     if "serde" not in fb.features:
         chk.note("R12.3 skipped: this build configuration does not enable the serde feature")
